@@ -286,7 +286,7 @@ def _history(draw):
     cmax = cmin * draw(st.sampled_from([2.0, 10.0, 10.0, 50.0, 100.0]))
     minB = draw(st.integers(4, 120))
     maxB = draw(st.integers(minB, 250))
-    bins = draw(st.one_of(st.integers(minB, maxB), st.integers(minB // 2 + 1, 260)))
+    bins = draw(st.one_of(st.integers(minB, maxB), st.integers(max(4, minB // 2 + 1), 260)))     # >= 4: the grid is extended by int(bins/4) classes, which is none below 4
     ctor = {"cmin": cmin, "cmax": cmax, "bins": bins, "minBins": minB, "maxBins": maxB, "adaptive": draw(st.booleans())}
     op = st.one_of(
         _newN_s.map(lambda n: ["update", n[0], n[1]]),
